@@ -415,7 +415,12 @@ template <class G> struct Harness {
         }
     }
 
-    bool seqOnly = false;
+    bool seqOnly = false, smallCore = false;
+    static bool inSmallCore(const std::string &n) {
+        static const std::set<std::string> k = {"key(all getters)", "edges()", "getAdjacencyMatrix", "operator== vs private copy", "getInDegrees", "getDegrees", "getReversedGraph", "getDirectedGraph", "getSubgraph",
+                                                "findAllVertexPredecessors", "writeTextEdgeList", "getWeightMatrix+total", "findGeodesicsDijkstra", "getEdgeMultiplicity+total", "asLabeledGraph searches"};
+        return k.count(n) != 0;
+    }
     std::set<int> shapesWanted;
     void all(bool coreOnly, int nThreads) {
         for (int shape = 0; shape < 4; ++shape) {
@@ -427,7 +432,7 @@ template <class G> struct Harness {
             std::string freshKey = keyOf(makeShape<G>(shape), false);
             std::vector<int> idx;
             for (int i = 0; i < (int)ops.size(); ++i)
-                if (seqOnly ? ops[i].seq : (!ops[i].seq && (!coreOnly || ops[i].core))) idx.push_back(i);
+                if (seqOnly ? ops[i].seq : (!ops[i].seq && (!coreOnly || ops[i].core) && (!smallCore || inSmallCore(ops[i].name)))) idx.push_back(i);
             std::vector<int> tuple(nThreads, 0);
             // all multisets of size nThreads
             std::function<void(int, int)> rec = [&](int pos, int from) {
@@ -480,6 +485,7 @@ template <class G> int runOne(const std::string &name, const Args &args) {
     }
     if (args.has("shapes"))
         for (auto &t : split(args.get("shapes", ""), ',')) h.shapesWanted.insert(atoi(t.c_str()));
+    h.smallCore = args.has("smallcore");
     h.seqOnly = args.has("seq");
     if (h.seqOnly) { rep.config += "/seq"; h.cfgName = rep.config; }
     h.all(args.has("core"), nThreads);
